@@ -184,6 +184,7 @@ func (w *Walker) snapshotCompletions() (CompletionMap, bool) {
 	for targetLabel, completion := range w.completions {
 		completions[targetLabel] = completion
 	}
+	verifhook.Emit("walk.snapshot", "size", len(completions))
 	return completions, w.failFastTriggered
 }
 
